@@ -84,7 +84,7 @@ def run_symgo(unit, workdir, shard, of, tier):
     cmd += unit.get("args", [])
     cmd += unit.get(tier + "_args", [])
     # wall-clock budget per harness: running out of it makes the unit inconclusive (exit 2), never a success
-    cmd += ["-time-budget-s", str(unit.get(tier + "_budget_s", 1500 if tier == "quick" else 6 * 3600))]
+    cmd += ["-time-budget-s", str(int(os.environ.get("VERIF_BUDGET_S") or unit.get(tier + "_budget_s", 1500 if tier == "quick" else 6 * 3600)))]
     for k in load_known():
         # a recorded finding is reported but must not use up the "stop after n findings" budget of the exploration
         if k.get("status") == "known" and k.get("label") and k.get("property") == unit.get("property"):
